@@ -1,6 +1,12 @@
-/- Helper lemmas for C05 / C06 / C09 (statements of the property theorems are fixed in MysyncProofs/C05.lean, C06.lean, C09.lean). -/
+/- Helper lemmas for C05 / C06 / C09 (statements of the property theorems are fixed in MysyncProofs/C05.lean, C06.lean, C09.lean).
+The lemmas live in `ManagerCore` (normal forms of the manager iteration), `ManagerProps` (C05 and the
+manager part of C09), `ManagerTick` (C06) and `ManagerMaint` (maintenance handlers of C09). -/
 import MysyncModel.App.Manager
 import MysyncModel.App.SwitchLifecycle
+import MysyncProofs.Lemmas.ManagerCore
+import MysyncProofs.Lemmas.ManagerProps
+import MysyncProofs.Lemmas.ManagerMaint
+import MysyncProofs.Lemmas.ManagerTick
 
 namespace ManagerLemmas
 open NS Manager SwitchLifecycle
